@@ -521,7 +521,40 @@ fn canaries(mon: &mut Monitor) {
     });
 }
 
+
+/// Iterator folds over no element return the neutral element, over one element that element (bit-for-bit).
+fn empty_folds(mon: &mut Monitor) {
+    if let Some(mut c) = mon.begin("iterator folds", "empty and single-element Sum / Product") {
+        macro_rules! chk {
+            ($($T:ident),*) => {$({
+                let t = stringify!($T);
+                let m = <$T>::from_cols_array(&core::array::from_fn(|k| (k as f32 * 0.75 - 1.25) as _));
+                let cases: Vec<(&'static str, $T, $T)> = vec![
+                    ("Product of nothing (by value)", core::iter::empty::<$T>().product::<$T>(), <$T>::IDENTITY),
+                    ("Product of nothing (by reference)", core::iter::empty::<&$T>().product::<$T>(), <$T>::IDENTITY),
+                    ("Sum of nothing (by value)", core::iter::empty::<$T>().sum::<$T>(), <$T>::ZERO),
+                    ("Sum of nothing (by reference)", core::iter::empty::<&$T>().sum::<$T>(), <$T>::ZERO),
+                    ("Product of one (by value)", [m].into_iter().product::<$T>(), m),
+                    ("Product of one (by reference)", [m].iter().product::<$T>(), m),
+                    ("Sum of one (by value)", [m].into_iter().sum::<$T>(), m),
+                    ("Sum of one (by reference)", [m].iter().sum::<$T>(), m),
+                ];
+                for (nm, got, want) in cases {
+                    c.event(vcommon::rng::hash_str(nm) ^ vcommon::rng::hash_str(t), true);
+                    if got.to_cols_array().iter().zip(want.to_cols_array().iter()).any(|(a, b)| a != b) {
+                        c.violation("fold_identity", &[nm], format!("{} {}", t, nm), format!("{:?}", got), format!("{:?}", want), String::new());
+                    }
+                }
+            })*};
+        }
+        chk!(Mat2, Mat3, Mat3A, Mat4, DMat2, DMat3, DMat4);
+        c.sample("Sum / Product of empty and one-element iterators, by value and by reference, for the 7 matrix types".into());
+        mon.end(c);
+    }
+}
+
 pub fn run(mon: &mut Monitor) {
+    empty_folds(mon);
     canaries(mon);
     suite(mon, &mat_api!(Mat2, f32, 2, 4, Vec2, mul_mat2, mul_vec2, add_mat2, sub_mat2, []));
     suite(mon, &mat_api!(Mat3, f32, 3, 9, Vec3, mul_mat3, mul_vec3, add_mat3, sub_mat3, [
